@@ -12,7 +12,7 @@ ID = "C17"
 RULE = (
     "E1 enumeration of model G layers A-D: every F2003 program parsed under both standards and "
     "the regenerated texts compared; every F2008-only program (templates/constructs marked f2008 "
-    "by the model) must be rejected by f2003 and accepted by f2008; plus every F2008-only construct "
+    "by the model) must be rejected by f2003 (before AND after the f2008 parser has parsed the same source) and accepted by f2008; plus every F2008-only construct "
     "in every layer-B context of depth <= 2. Non-trivial = program with >= 3 statements accepted by f2003, "
     "or an F2008-only program."
 )
@@ -35,9 +35,16 @@ def judge(src, prog_is_08_only, uses_08_intrinsic_name):
     t3 = text_of(o3.tree) if o3.ok else None
     o8 = try_parse(src, "f2008")
     t8 = text_of(o8.tree) if o8.ok else None
+    # the f2003 verdict once more, AFTER the f2008 parser has worked on the same
+    # source: the two parsers share classes and module-level state, so the
+    # F2003 half of the property is also decided in that order
+    o3b = try_parse(src, "f2003")
+    t3b = text_of(o3b.tree) if o3b.ok else None
     if prog_is_08_only:
         if o3.ok:
             return "f2003-accepts-f2008-only", "f2003 parser accepted an F2008-only program; str:\n%s" % t3, o8
+        if o3b.ok:
+            return "f2003-accepts-f2008-only", "f2003 parser accepted an F2008-only program once the f2008 parser had parsed the same source (order: f2003, f2008, f2003); str:\n%s" % t3b, o8
         if not o8.ok:
             return "f2008-rejects-f2008-program:" + o8.klass(), (o8.msg or "")[:200], o8
         return None, None, o8
@@ -45,6 +52,8 @@ def judge(src, prog_is_08_only, uses_08_intrinsic_name):
         return "model-f2003-rejected:" + o3.klass(), (o3.msg or "")[:200], o3
     if not o8.ok:
         return "f2008-rejects-f2003-program:" + o8.klass(), (o8.msg or "")[:200], o3
+    if o3b.ok != o3.ok or t3b != t3:
+        return "f2003-result-changed-by-f2008-parse", "order f2003, f2008, f2003 on the same source\n--- first f2003:\n%s\n--- second f2003:\n%s" % (t3, t3b if o3b.ok else o3b.klass()), o8
     if t3 != t8:
         if uses_08_intrinsic_name and _fold_outside_literals(t3) == _fold_outside_literals(t8):
             return None, None, o8
